@@ -35,9 +35,10 @@ import (
 // PropFail (independent of the Lean model; big.Rat arithmetic on the token): an event whose time is a
 // well-formed JSON number / digit string / RFC3339 string in an ACCEPTED unit inside that unit's
 // plausible window must be stored (writer.GetNewPLE) with that instant:
-//	logs:    seconds [1e8,1e10) → v*1000 ; milliseconds [99999999999,1e13) → v ; nanoseconds [1e18,1e19) → v/1e6
+//	logs:    seconds [1e8,1e10) → v*1000 ; milliseconds [99999999999,1e13) → v ; nanoseconds [1e18,2^63) → v/1e6
 //	metrics: seconds [1e8,2^32) ; OTSDB + remote write: seconds, milliseconds ; OTLP: seconds, milliseconds, nanoseconds
-// Latitude granted: anything below the store's resolution may be dropped or rounded (sub-millisecond for
+// Latitude granted: a nanosecond count written in decimal/exponent form is read as binary64 (which
+// cannot carry it exactly): within 1 ms; anything below the store's resolution may be dropped or rounded (sub-millisecond for
 // logs, sub-second for metrics — the code comment in ParseTimeForPromQL says so for metrics);
 // microseconds are nowhere said to be accepted (no demand; characterised by theorem); nanosecond
 // instants before 2001-09-09 (< 1e18, the documented magnitude of "Time in Nano Seconds") no demand;
@@ -420,7 +421,7 @@ func c16Unit(v *big.Rat) string {
 		return "ms"
 	case c16InWin(v, "100000000000000", "10000000000000000"):
 		return "us"
-	case c16InWin(v, "1000000000000000000", "10000000000000000000"):
+	case c16InWin(v, "1000000000000000000", "9223372036854775808"): // int64 nanoseconds end 2262-04-11
 		return "ns"
 	case c16InWin(v, "99999999999000000", "1000000000000000000"):
 		return "ns-before-2001"
@@ -472,7 +473,10 @@ func c16Near(got uint64, want *big.Int, frac bool) bool {
 	return frac && g.Cmp(new(big.Int).Add(want, big.NewInt(1))) == 0
 }
 
-func c16LogProp(enc string, v *big.Rat, doc []byte, res *Result) {
+// floatForm: the token is a JSON number in decimal/exponent form (read as binary64, the usual
+// reading of JSON numbers). Beyond 2^53 (nanosecond counts) binary64 cannot carry the decimal
+// exactly, so a result within 1 ms of the exact decimal's instant is granted.
+func c16LogProp(enc string, v *big.Rat, doc []byte, res *Result, floatForm bool) {
 	unit := c16Unit(v)
 	res.Tags = append(res.Tags, "log-"+enc+"-unit="+unit)
 	if unit != "s" && unit != "ms" && unit != "ns" {
@@ -484,6 +488,10 @@ func c16LogProp(enc string, v *big.Rat, doc []byte, res *Result) {
 		return // the document as a whole is refused: nothing is stored under a wrong time
 	}
 	if how == "value" && c16Near(got, want, frac) {
+		return
+	}
+	if how == "value" && floatForm && unit == "ns" && got+1 == want.Uint64() {
+		res.Tags = append(res.Tags, "log-float-form-ns-within-1ms")
 		return
 	}
 	cls := enc + "-" + unit + "-other"
@@ -568,7 +576,7 @@ func execTime(line string) Result {
 			doc := c16Doc(f[2], true)
 			res.Out = c16Extract(doc)
 			if v := c16Value(f[2]); v != nil {
-				c16LogProp("numeric", v, doc, &res)
+				c16LogProp("numeric", v, doc, &res, !c16Digits.MatchString(f[2]))
 			} else {
 				res.Tags = append(res.Tags, "log-numeric-not-json-number")
 			}
@@ -589,11 +597,11 @@ func execTime(line string) Result {
 			doc := c16Doc(`"`+s+`"`, true)
 			res.Out = c16Extract(doc)
 			if c16Digits.MatchString(s) && len(s) < 40 {
-				c16LogProp("string", c16RatOf(s), doc, &res)
+				c16LogProp("string", c16RatOf(s), doc, &res, false)
 			} else if t, err := time.Parse(time.RFC3339Nano, s); err == nil && t.Year() >= 1973 && t.Year() < 2262 {
 				v := new(big.Rat).SetFrac(big.NewInt(t.UnixNano()), big.NewInt(1000000))
 				if c16Unit(v) == "ms" {
-					c16LogProp("rfc3339", v, doc, &res)
+					c16LogProp("rfc3339", v, doc, &res, false)
 				}
 			} else {
 				res.Tags = append(res.Tags, "log-string-no-accepted-format")
